@@ -402,6 +402,9 @@ class Inliner(object):
         elif isinstance(s, ast.ClassDef): visit(s.body, (cls + '.' if cls else '') + s.name)
     visit(self.tree.body, '')
 
+  def _defined_elsewhere (self, name):
+    try: return bool(self.external_def(name))
+    except TypeError: return True
   # -- resolution of a call to a new helper
   def resolve (self, call, cls, closures):
     f = call.func
@@ -426,11 +429,21 @@ class Inliner(object):
       if any(related(c, me) or related(me, c) for c in others): return None
       if me and '?' in self.bases.get(me, ()): return None
       # a subclass in another file: only possible if that file mentions this class and defines a method of this name
-      if self.external_def is not None and self.external_def(f.attr) and (self.external_name is None or not me or self.external_name(me)): return None
+      if self.external_def is not None and me:
+        try: over = self.external_def(f.attr, me)
+        except TypeError: over = self.external_def(f.attr) and (self.external_name is None or self.external_name(me))
+        if over: return None
       h = None
+      on_self = isinstance(f.value, ast.Name) and f.value.id in ('self', 'cls')
       for c, fn in cands:
-        if c == cls: h = fn
-      if h is None and len(cands) == 1: h = cands[0][1]
+        if c == cls and on_self: h = fn
+      if h is None and len(cands) == 1 and not on_self:
+        # a call on some other object: it means this helper only if nothing else anywhere has a method of that name
+        if len(self.def_classes.get(f.attr, ())) == 1 and not (self.external_def is not None and self._defined_elsewhere(f.attr)): h = cands[0][1]
+      if h is None and len(cands) == 1 and on_self and cls is not None:
+        # self.m() where m is a new helper of another class of this module: only if that class is an ancestor of this one
+        oc = cands[0][0].split('.')[-1]
+        if related(me, oc): h = cands[0][1]
       if h is None: return None
       decos = [d.id if isinstance(d, ast.Name) else getattr(d, 'attr', None) for d in h.decorator_list]
       if 'staticmethod' in decos: return h, None, 'static'
